@@ -340,6 +340,17 @@ theorem addCompanion_inv {s : Sys} (hinv : Inv s) (a : Nat) : Inv (addCompanion 
   · exact inv_comps hinv _ _
   · exact inv_comps hinv _ _
 
+theorem inv_of_fields {s t : Sys} (h : Inv s) (hm : t.main = s.main) (ho : t.others = s.others)
+    (hw : t.wps = s.wps) (hl : t.last = s.last) : Inv t :=
+  ⟨hw ▸ h.reg, hm ▸ hw ▸ h.main, ho ▸ hw ▸ h.others, hl ▸ hw ▸ h.last, hl ▸ hw ▸ h.lastNone⟩
+
+theorem addCompanion_fields (s : Sys) (a : Nat) :
+    (addCompanion s a).2.main = s.main ∧ (addCompanion s a).2.others = s.others ∧
+    (addCompanion s a).2.wps = s.wps ∧ (addCompanion s a).2.last = s.last ∧
+    (addCompanion s a).2.nextWp = s.nextWp ∧ (addCompanion s a).2.newborn = s.newborn := by
+  unfold addCompanion
+  split <;> simp
+
 theorem addExpr_inv {s : Sys} (hinv : Inv s) (e a b : Nat) (c : BreakCondition) (se : Option Nat) :
     Inv (addExpr s e a b c se).2 := by
   unfold addExpr
@@ -350,20 +361,19 @@ theorem addExpr_inv {s : Sys} (hinv : Inv s) (e a b : Nat) (c : BreakCondition) 
     · split
       · exact hinv
       · rename_i size _
-        cases se with
-        | none =>
-          simp only
-          split
-          · exact hinv
-          · rename_i st hw' s1 he
+        split
+        · exact hinv
+        · rename_i st hw' s1 he
+          cases se with
+          | none =>
+            simp only
             exact inv_after_enable hinv he _ rfl _
-        | some a' =>
-          simp only
-          have hi0 := addCompanion_inv hinv a'
-          split
-          · exact hi0
-          · rename_i st hw' s1 he
-            exact inv_after_enable hi0 he _ rfl _
+          | some a' =>
+            simp only
+            obtain ⟨h1, h2, h3, h4, _, _⟩ := addCompanion_fields s1 a'
+            exact inv_of_fields (inv_after_enable hinv he
+              { num := (addCompanion s1 a').2.nextWp, hw := hw', expr := some e,
+                companion := some (addCompanion s1 a').1 } rfl 0) h1 h2 (by simp [h3]) rfl
 
 theorem removeWhere_inv {s : Sys} (hinv : Inv s) (p : Wp → Bool) {n : Option Nat} {s' : Sys}
     (h : removeWhere s p = some (n, s')) : Inv s' := by
